@@ -210,6 +210,24 @@ def thread_returns(stmts: List[ast.stmt], on_return) -> List[ast.stmt]:
     return out
 
 
+def _as_one_expression(stmts: List[ast.stmt], depth=0):
+    """the value a statement list returns, as one expression: `return E` is E; `if C: <returns A>` followed by <returns B> (or with
+    an else branch) is `A if C else B`.  None for anything else (assignments, loops, a path that falls off the end)."""
+    if not stmts or depth > 4:
+        return None
+    st = stmts[0]
+    if isinstance(st, ast.Return):
+        return st.value
+    if isinstance(st, ast.If):
+        a_ = _as_one_expression(st.body, depth + 1)
+        b_ = _as_one_expression(list(st.orelse) + list(stmts[1:]) if not _always_returns(st.orelse) else list(st.orelse), depth + 1)
+        if a_ is None or b_ is None:
+            return None
+        e = ast.IfExp(test=st.test, body=a_, orelse=b_)
+        return ast.copy_location(e, st)
+    return None
+
+
 def _returns_to_breaks(stmts: List[ast.stmt], on_return) -> List[ast.stmt]:
     """inside the body of a tail-position loop: every `return X` becomes on_return(X) + `break`.  A return inside a nested
     loop would need a second jump: NotInlinable."""
@@ -291,6 +309,9 @@ def _first_evaluated_call(st: ast.stmt):
         return down(st.value)
     if isinstance(st, (ast.Assign, ast.AnnAssign, ast.AugAssign)) and st.value is not None:
         def plain(t):
+            # `d[k] = helper()` with d and k plain names: nothing in the target is evaluated that could interfere with the call
+            if isinstance(t, ast.Subscript) and isinstance(t.value, ast.Name) and isinstance(t.slice, (ast.Name, ast.Constant)):
+                return True
             while isinstance(t, ast.Attribute):
                 t = t.value
             return isinstance(t, (ast.Name, ast.Tuple, ast.List))
@@ -412,9 +433,9 @@ class Inliner:
                     body = list(gn.body)
                     if body and isinstance(body[0], ast.Expr) and isinstance(body[0].value, ast.Constant) and isinstance(body[0].value.value, str):
                         body = body[1:]
-                    if len(body) != 1 or not isinstance(body[0], ast.Return) or body[0].value is None:
+                    e = _as_one_expression(body)
+                    if e is None:
                         continue
-                    e = body[0].value
                     if any(isinstance(y, (ast.Yield, ast.YieldFrom, ast.Await, ast.NamedExpr, ast.Lambda, ast.ListComp, ast.SetComp, ast.DictComp)) for y in ast.walk(e)):
                         continue
                     a = gn.args
@@ -853,7 +874,7 @@ def _desugar_conditional_statements(tree) -> int:
                 if isinstance(st, ast.Return) and isinstance(st.value, ast.IfExp):
                     e = st.value
                     new = ast.If(test=e.test, body=[ast.Return(value=e.body)], orelse=[ast.Return(value=e.orelse)])
-                elif isinstance(st, ast.Assign) and isinstance(st.value, ast.IfExp) and len(st.targets) == 1 and isinstance(st.targets[0], ast.Name):
+                elif isinstance(st, ast.Assign) and isinstance(st.value, ast.IfExp) and len(st.targets) == 1 and (isinstance(st.targets[0], ast.Name) or (isinstance(st.targets[0], ast.Attribute) and isinstance(st.targets[0].value, ast.Name))):
                     e = st.value
                     new = ast.If(test=e.test, body=[ast.Assign(targets=[clone(st.targets[0])], value=e.body)], orelse=[ast.Assign(targets=[clone(st.targets[0])], value=e.orelse)])
                 if new is not None:
